@@ -156,6 +156,7 @@ CHECKS = {
         "runs": [
             {"pkg": "core", "run": "^TestC08WebsocketClose$", "quick": 300, "thorough": 10000, "shards_thorough": 4},
             {"pkg": "core", "run": "^TestC08PeerCloseManySessions$", "quick": 300, "thorough": 10000, "shards_thorough": 4},
+            {"pkg": "core", "run": "^TestC08ProcessShutdown$", "quick": 300, "thorough": 10000, "shards_thorough": 4},
             {"pkg": "core", "run": "^TestC08GracefulClose$", "quick": 1000, "thorough": 40000, "shards_thorough": 8},
         ],
     },
